@@ -306,7 +306,7 @@ def module(t, body, nvals):
                         ' pub fn partial_cmp(&self, _: &Self) -> u8 { 0 } pub fn hash(&self) -> u8 { 0 } pub fn fmt(&self) -> u8 { 0 } pub fn clone(&self) -> u8 { 0 }'
                         ' pub fn clone_from(&mut self, _: &Self) {} pub fn default() -> u8 { 0 } pub fn deref(&self) -> u8 { 0 } pub fn deref_mut(&mut self) -> u8 { 0 }'
                         ' pub fn into(self) -> u8 { 0 } }')
-    ty = ('pub mod ty {\n    #![deny(warnings)]\n    #![allow(dead_code, unused_imports, non_snake_case)]\n    use crate::support::{A, B, C, N, Nt, Nd, Fl, Off, Good, Bad, Half, g_clone, g_default, g_into, m_eq, m_eqv, m_cmp, m_pcmp, m_hash, m_fmt, m_clone, m_clone_c, m_into, m_same, Mk, g_eq, g_cmp, g_pcmp, g_hash, g_fmt};\n'
+    ty = ('pub mod ty {\n    #![deny(warnings)]\n    #![allow(dead_code, unused_imports, non_snake_case)]\n    use crate::support::{A, B, C, N, Nt, Nd, Fl, Off, Good, Bad, Half, Full, g_clone, g_default, g_into, m_eq, m_eqv, m_cmp, m_pcmp, m_hash, m_fmt, m_clone, m_clone_c, m_into, m_same, Mk, g_eq, g_cmp, g_pcmp, g_hash, g_fmt};\n'
           '    use educe::Educe;\n%s%s%s\n}\npub use ty::T;' % (HOSTILE_ITEMS if HOSTILE[0] else '', type_decl(t), hostile_impl))
     return ('// %s\n#![allow(dead_code, unused_variables, unused_mut, unused_imports, non_shorthand_field_patterns, clippy::all)]\n'
             'use crate::support::*;\nuse core::cmp::Ordering;\n%s\n%s\n' % (t.id, ty, body))
@@ -736,12 +736,15 @@ class CloneSuite(Suite):
         ftgen = (lambda r, i: ft_C(0 if r.random() < 0.5 else i)) if copy else None
         t = gen_shape(r, tid, ftgen=ftgen)
         t.type_attrs = [pick(r, ['Clone, Copy', 'Copy, Clone'])] if copy else ['Clone']
+        copy_alone = copy and r.random() < 0.3          # `#[educe(Copy)]` beside a hand-written (bitwise) Clone
+        if copy_alone:
+            t.type_attrs = ['Copy']
         mname = 'm_clone_c' if copy else 'm_clone'
         anymethod = False
         for v in t.variants:
             for f in v.fields:
                 f.at['c'] = 'plain'
-                if r.random() < 0.3 and not (copy and t.kind == 'struct'):
+                if r.random() < 0.3 and not (copy and t.kind == 'struct') and not copy_alone:
                     f.at['c'] = 'method'; anymethod = True
                     f.at['_metas'] = [sp_method(r, 'Clone', mname)]
         bitwise = copy and not anymethod
@@ -759,7 +762,9 @@ class CloneSuite(Suite):
             arms.append('%s => %s' % (pat(t, v, 'p'), build(t, v, ex)))
             logs.append('%s => vec![%s]' % (pat(t, v, 'p'), ', '.join([] if bitwise else lg)))
         vf, nv = values_fn(t, r, cap=20)
-        fns = [vf, show_fn(t),
+        if copy_alone:
+            t.xvalues = None        # no Clone item in the expansion to cross-check
+        fns = [vf, show_fn(t)] + (['impl ::core::clone::Clone for T { fn clone(&self) -> Self { *self } }'] if copy_alone else []) + [
                'pub fn o_clone(x: &T) -> T { match x { %s } }' % ', '.join(arms),
                'pub fn o_log(x: &T) -> Vec<String> { match x { %s } }' % ', '.join(logs)]
         run = ('pub fn run(out: &mut Out) { let vs = values(); for a in &vs { let _ = take_log(); let g = ::core::clone::Clone::clone(a); let l = take_log(); let e = o_clone(a);'
@@ -1226,12 +1231,21 @@ class BoundsSuite(Suite):
         refp = set(f.param for v in t.variants for f in v.fields if f.ft.rust.startswith('&'))
         t.generic = [p_ + (": 'static" if p_ in refp else '') for p_ in params]
         g = ', '.join(params)
-        extra = [MANUAL_IMPL[m] % dict(g=', '.join(t.generic), a=g) for m in info.get('manual', [])]
+        # the hand-written supertrait impls are sometimes conditional on a marker (`X: Mk`) the field bounds do not imply:
+        # the educed impl must then carry `Self: Supertrait` ("together with the trait's supertraits on the type itself")
+        cond = bool(info.get('manual')) and mode == 'auto' and r.random() < 0.35
+        gdecl = list(t.generic)
+        if cond:
+            gdecl[0] = gdecl[0] + (' + Mk' if ':' in gdecl[0] else ': Mk')
+        extra = [MANUAL_IMPL[m] % dict(g=', '.join(gdecl), a=g) for m in info.get('manual', [])]
         checks = []
-        # Half implements the weaker trait of each companion pair only: a bound on the stronger one shows
+        # Half implements the weaker trait of each companion pair only: a bound on the stronger one shows;
+        # Full implements every trait but not the marker Mk
         strong = trait in ('Ord', 'Copy')      # a stand-alone Eq asks PartialEq of the field types (README: 'bound to the PartialEq trait')
-        for combo in itertools.product(['Good', 'Bad', 'Half'], repeat=nparams):
-            exp = all((c == 'Good' or (c == 'Half' and not strong)) for p, c in zip(params, combo) if p in needed)
+        for combo in itertools.product(['Good', 'Bad', 'Half'] + (['Full'] if cond else []), repeat=nparams):
+            exp = all((c in ('Good', 'Full') or (c == 'Half' and not strong)) for p, c in zip(params, combo) if p in needed)
+            if cond and combo[0] != 'Good':
+                exp = False
             inst = 'T<%s>' % ', '.join(combo)
             checks.append('{ use crate::support::%s::Fallback as _; let g = crate::support::%s::P::<%s>::YES; out.check(g == %s, "%s", "impl_applies", || format!("%s: %s is {} but the delegated fields say %s", g)); }'
                           % (info['probe'], info['probe'], inst, 'true' if exp else 'false', tid, inst, trait, 'true' if exp else 'false'))
@@ -1283,8 +1297,37 @@ def _make_into(self, r, tid):
     return t, module(t, body, 1), dict(values=8, trait='Into', mode='auto')
 BoundsSuite.make_into = _make_into
 
+def _make_union_where(self, r, tid):
+    """a generic union whose bound sits in a where-clause: every impl (the companions too) must repeat it"""
+    ta = pick(r, ['PartialEq(unsafe), Eq', 'Eq, PartialEq(unsafe)', 'PartialEq(unsafe)', 'Hash(unsafe), PartialEq(unsafe), Eq', 'Copy, Clone', 'Debug(unsafe), Clone, Copy', 'Default, Clone, Copy'])
+    hdr = pick(r, ['<X> where X: Copy', "<'a, X, const M: usize> where X: Copy + 'a, [u8; M]: Sized", '<X: Copy, Y> where Y: Copy'])
+    fields = {'<X> where X: Copy': 'pub a: X, pub c: u8', "<'a, X, const M: usize> where X: Copy + 'a, [u8; M]: Sized": "pub a: X, pub r: &'a u8, pub arr: [u8; M]",
+              '<X: Copy, Y> where Y: Copy': 'pub a: X, pub b: Y'}[hdr]
+    if 'Default' in ta:
+        fields = fields.replace('pub a: X', '#[educe(Default = 7)] pub a: u8 , pub x: X', 1)
+    inst = {'<X> where X: Copy': 'T<Good>', "<'a, X, const M: usize> where X: Copy + 'a, [u8; M]: Sized": "T<'static, Good, 3>", '<X: Copy, Y> where Y: Copy': 'T<Good, u8>'}[hdr]
+    t = Ty(tid, 'union', [])
+    t.raw_decl = '#[derive(Educe)]\n#[educe(%s)]\npub union T%s { %s }' % (ta, hdr, fields)
+    uses = []
+    if 'Eq' in ta.replace('PartialEq', ''):
+        uses.append('fn is_eq<E: ::core::cmp::Eq>() {} is_eq::<%s>();' % inst)
+    if 'PartialEq' in ta:
+        uses.append('fn is_peq<E: ::core::cmp::PartialEq>() {} is_peq::<%s>();' % inst)
+    if 'Clone' in ta:
+        uses.append('fn is_cc<E: ::core::clone::Clone + ::core::marker::Copy>() {} is_cc::<%s>();' % inst)
+    if 'Hash' in ta:
+        uses.append('fn is_h<E: ::core::hash::Hash>() {} is_h::<%s>();' % inst)
+    if 'Debug' in ta:
+        uses.append('fn is_d<E: ::core::fmt::Debug>() {} is_d::<%s>();' % inst)
+    if 'Default' in ta:
+        uses.append('fn is_df<E: ::core::default::Default>() {} is_df::<%s>();' % inst)
+    body = 'pub fn run(out: &mut Out) { %s out.check(true, "%s", "compile", || String::new()); }' % (' '.join(uses), tid)
+    return t, module(t, body, 1), dict(values=1, trait='UnionWhere', mode='auto')
+
 def _make_union_bounds(self, r, tid):
     """generic unions: stand-alone Eq (beside a hand-written PartialEq) and Copy + Clone bound every field type"""
+    if r.random() < 0.3:
+        return _make_union_where(self, r, tid)
     trait = pick(r, ['Eq', 'CopyClone', 'Default'])
     params = ['X', 'Y'][:pick(r, [1, 2])]
     fs = [Fld(nm, FT('::core::mem::ManuallyDrop<%s>' % p, [])) for nm, p in zip(['a', 'b'], params)]
